@@ -11,9 +11,9 @@ Property theorems only (DESIGN §3 C09).  Two layers:
   written from Core's `CTransactionSignatureSerializer`, BIP143 and BIP341/342 over hash PARAMETERS and the
   constants regenerated from btclib's source (`Gen.SigHash.*`); T2 and T4 are about it;
 * the btclib-shaped functions `Btc.Sighash.Impl.*` (`Model/C09/Impl.lean`), tied to `btclib/script/sig_hash.py`
-  by the correspondence streams; T1 and T3 are about them.  That the two layers compute the same digest is
-  checked by the driver on every accepted line of every stream (`specdiff`); it is a theorem for `segwit_v0`
-  (`segwit_v0_is_bip143_partial`), not yet for `legacy` and `taproot`.
+  by the correspondence streams; T1 and T3 are about them.  That the two layers compute the same digest is a
+  theorem for all three (`legacy_is_core_signature_hash`, `segwit_v0_is_bip143`, `taproot_is_bip341`) and is
+  also checked by the driver on every accepted line of every stream (`specdiff`).
 
 `Collides H a b` is an explicit collision: `a ≠ b ∧ H a = H b`.
 -/
@@ -36,22 +36,56 @@ theorem taproot_precomputed_eq_direct (S : Bytes → Bytes) (tx : Tx) (prevouts 
       Impl.taproot S tx i prevouts ht extFlag annex msgExt none :=
   Impl.taproot_precomputed hp i ht extFlag annex msgExt
 
+/-! ## Layer tie — the btclib-shaped functions compute the specification's digests -/
+
+/-- Layer tie (legacy): whenever the btclib-shaped `legacy` -- transaction copy, blanked scriptSigs, OP_CODESEPARATOR
+    elision, NONE / SINGLE edits, ANYONECANPAY, SINGLE out-of-range early return, either spelling of the 32-bit
+    hash type -- answers with a digest, it is the specification's: the constant under the SIGHASH_SINGLE bug, else
+    hash256 = S∘S of what Core's `CTransactionSignatureSerializer` writes followed by the four type bytes. -/
+theorem legacy_is_core_signature_hash (S : Bytes → Bytes) (sc : Bytes) (tx : Tx) (i ht : Int) (d : Bytes)
+    (h : Impl.legacy S sc tx i ht = .ok d) :
+    d = legacyDigest (Impl.hash256 S) sc tx i.toNat (Impl.word ht) :=
+  Impl.legacy_eq_spec h
+
+/-- the heart of it: btclib's copy-and-edit of the transaction IS the transaction Core's serializer virtually
+    writes, for every hash type and every input index inside the transaction. -/
+theorem legacy_copy_is_core_serializer (sc : Bytes) (tx : Tx) (i w : Nat) (hi : i < tx.vin.length) :
+    Impl.legacyEdited sc tx i w = legacyTx sc tx i w :=
+  Impl.legacyEdited_eq sc tx i w hi
+
 /-- Layer tie (BIP143): whenever the btclib-shaped `segwit_v0` -- direct, or with the `PrecomputedTxData` of this
-    very transaction -- answers with a digest, it is the specification's BIP143 digest with hash256 = S∘S.
-    PARTIAL: proved for the non-negative spelling of the hash type.  Full statement (kept here): the same for
-    every `-2^31 ≤ ht < 2^32`, i.e. also Core's negative `int32_t` spelling, whose four bytes are the two's
-    complement word `Impl.word ht`; missing is the lemma `Py.land (Int.negSucc m) (2^32-1) = 2^32-1-m`, and the
-    negative spellings are covered by the `legacy` / `segwit_v0` correspondence streams and the `gen.SigHash`
-    stream of the translated `_serialized_hash_type`. -/
-theorem segwit_v0_is_bip143_partial (S : Bytes → Bytes) (sc : Bytes) (tx : Tx) (prevouts : List TxOut)
-    (i ht amount : Int) (d : Bytes) (h0 : 0 ≤ ht) :
+    very transaction -- answers with a digest, it is the specification's BIP143 digest with hash256 = S∘S, for
+    either spelling (`-2^31 ≤ ht < 2^32`) of the hash type. -/
+theorem segwit_v0_is_bip143 (S : Bytes → Bytes) (sc : Bytes) (tx : Tx) (prevouts : List TxOut)
+    (i ht amount : Int) (d : Bytes) :
     (Impl.segwitV0 S sc tx i ht amount none = .ok d →
       d = bip143Digest (Impl.hash256 S) sc tx i.toNat (Impl.word ht) amount) ∧
     (∀ p, Impl.precompute S tx prevouts = .ok p → Impl.segwitV0 S sc tx i ht amount (some p) = .ok d →
       d = bip143Digest (Impl.hash256 S) sc tx i.toNat (Impl.word ht) amount) := by
-  refine ⟨Impl.segwitV0_eq_spec h0, fun p hp h => ?_⟩
+  refine ⟨Impl.segwitV0_eq_spec, fun p hp h => ?_⟩
   rw [Impl.segwitV0_precomputed hp] at h
-  exact Impl.segwitV0_eq_spec h0 h
+  exact Impl.segwitV0_eq_spec h
+
+/-- Layer tie (BIP341/342): whenever the btclib-shaped `taproot` -- direct or precomputed -- answers with a digest
+    it is the specification's tagged BIP341 digest: for every accepted hash type (the seven), annex present iff
+    non-empty, key path (`ext = none`: extension flag 0, empty message extension) or script path (`ext = some e`:
+    flag 1, extension = tapleaf hash ‖ key version ‖ codeseparator position). -/
+theorem taproot_is_bip341 (S : Bytes → Bytes) (tx : Tx) (i : Int) (prevouts : List TxOut) (ht : Int)
+    (annex : Bytes) (ext : Option TapExt) (d : Bytes) :
+    (Impl.taproot S tx i prevouts ht (if ext.isSome then 1 else 0) annex (tapExtBytes ext) none = .ok d →
+      d = bip341Digest S tx i.toNat prevouts ht.toNat (Impl.annexOpt annex) ext) ∧
+    (∀ p, Impl.precompute S tx prevouts = .ok p →
+      Impl.taproot S tx i prevouts ht (if ext.isSome then 1 else 0) annex (tapExtBytes ext) (some p) = .ok d →
+      d = bip341Digest S tx i.toNat prevouts ht.toNat (Impl.annexOpt annex) ext) := by
+  refine ⟨Impl.taproot_eq_spec ext, fun p hp h => ?_⟩
+  rw [Impl.taproot_precomputed hp] at h
+  exact Impl.taproot_eq_spec ext h
+
+/-- the four hash-type bytes are the two's complement word for either spelling, and nothing wider is taken
+    (about the TRANSLATED `_serialized_hash_type`). -/
+theorem hash_type_bytes (ht : Int) (b : Bytes) (h : Gen.SigHash.serialized_hash_type ht = .ok b) :
+    b = le4 (Impl.word ht) ∧ -2147483648 ≤ ht ∧ ht < 4294967296 :=
+  Impl.serialized_hash_type_ok h
 
 /-! ## T2 — commitment: equal preimages ⇒ equal committed fields (or an explicit collision) -/
 
@@ -294,6 +328,20 @@ theorem codesep_none_is_identity (s : Bytes) (h : ∀ c ∈ (walk s).1, chunkIsS
   simp only [this]
   exact walk_reconstructs s
 
+/-- T4 (`_script_code_from`): for `k ≥ 1` the answer is the script's own bytes after the k-th OP_CODESEPARATOR
+    *operation* of Core's `GetOp` walk (`pre` holds exactly k-1 separator operations and `c` is the k-th; a 0xAB
+    inside a push is inside a chunk and is never counted), and the library refuses exactly when the script has
+    fewer than k separator operations; `k = 0` is the whole script, `k < 0` is refused. -/
+theorem script_code_from_is_suffix_after_kth_separator (s : Bytes) (k : Int) :
+    (k < 0 → scriptCodeFrom s k = none) ∧ (k = 0 → scriptCodeFrom s k = some s) ∧
+    (1 ≤ k →
+      (∀ r, scriptCodeFrom s k = some r →
+        ∃ pre c post, (walk s).1 = pre ++ c :: post ∧ chunkIsSep c = true ∧
+          pre.countP chunkIsSep + 1 = k.toNat ∧ r = post.flatten ++ (walk s).2 ∧ s = (pre.flatten ++ c) ++ r) ∧
+      (scriptCodeFrom s k = none ↔ (walk s).1.countP chunkIsSep < k.toNat)) := by
+  refine ⟨fun h => by simp [scriptCodeFrom, h], fun h => by simp [scriptCodeFrom, h], fun hk => ?_⟩
+  exact ⟨fun r h => scriptCodeFrom_some hk h, scriptCodeFrom_none hk⟩
+
 /-- the CompactSize writer of the specification is the translated `var_int.serialize`. -/
 theorem compactSize_is_var_int_serialize (n : Nat) (hn : n < 18446744073709551616) :
     Gen.VarInt.serialize (n : Int) = .ok (compactSize n) :=
@@ -310,6 +358,16 @@ example : tapSingle 0x83 = true ∧ tapAcp 0x83 = true ∧ tapAcp 3 = false := b
 -- a concrete well-formed transaction and its legacy preimage length
 def exTx : Tx := ⟨2, [⟨⟨List.replicate 32 7, 1⟩, [], 0xFFFFFFFE⟩], [⟨1000, [0x51]⟩], 0⟩
 example : (legacyPreimage [0xAB, 0x51] exTx 0 1).length = 4 + 1 + (36 + 2 + 4) + 1 + (8 + 2) + 4 + 4 := by decide
+-- the second separator of `ab 01ab ab 51`: the 0xAB inside the push is not counted
+example : scriptCodeFrom [0xAB, 0x01, 0xAB, 0xAB, 0x51] 2 = some [0x51] ∧
+    scriptCodeFrom [0xAB, 0x01, 0xAB, 0xAB, 0x51] 3 = none := by decide
+-- a negative hash type and its word
+example : Gen.SigHash.serialized_hash_type (-1) = .ok [255, 255, 255, 255] ∧ Impl.word (-1) = 4294967295 := by decide
+-- the layer-tie hypotheses are met (identity in place of SHA256; all three answer a digest on `exTx`)
+example : (Impl.legacy id [0xAB, 0x51] exTx 0 (-127)).toOption.isSome = true := by decide
+example : (Impl.segwitV0 id [0x51] exTx 0 0x83 1000 none).toOption.isSome = true := by decide
+example : (Impl.taproot id exTx 0 [⟨1000, [0x51]⟩] 0x83 1 [0x50] (tapExtBytes (some ⟨List.replicate 32 9, 0, 4294967295⟩))
+    none).toOption.isSome = true := by decide
 example : legacySingleBug exTx 0 3 = false ∧ legacySingleBug { exTx with vout := [] } 0 3 = true := by decide
 
 end Props.C09
